@@ -96,7 +96,7 @@ func genC01(r *Rng, tier string, idx int) *Plan {
 		for i := 0; i < nf; i++ {
 			switch r.Intn(10) {
 			case 0, 1, 2, 3, 4:
-				kind := r.Pick([]string{"err-before", "err-after", "err-before", "err-after", "evict", "crash-before", "crash-after"})
+				kind := r.Pick([]string{"err-before", "err-after", "err-before", "err-after", "evict", "crash-before", "crash-after", "redis-down"})
 				if p.Spec.Filters[0].Store == "redis" && r.Chance(0.2) {
 					kind = "corrupt:" + r.Pick([]string{"id_token", "access_token_expiry", "time_added", "refresh_token", "state"})
 				}
